@@ -117,6 +117,18 @@ def ev(node, env):
         return True
     if isinstance(node, ast.IfExp):
         return ev(node.body, env) if ev(node.test, env) else ev(node.orelse, env)
+    if isinstance(node, ast.Call) and isinstance(node.func, ast.Name) and '__funcs__' in env and node.func.id not in ('len', 'int', 'bool', 'max', 'min', 'abs', 'divmod', 'bytes', 'bytearray'):
+        # a module-level function of the analysed file, interpreted by run_function (decision-table code only)
+        g = env['__funcs__'](node.func.id)
+        if g is not None:
+            params = [a.arg for a in g.args.args]
+            args = [ev(a, env) for a in node.args]
+            if len(args) != len(params):
+                raise Unsupported('arity of %s' % node.func.id)
+            genv = dict(zip(params, args))
+            genv['__funcs__'] = env['__funcs__']
+            r, _ = run_function(g, genv)
+            return r
     if isinstance(node, ast.Call) and isinstance(node.func, ast.Name):
         args = [ev(a, env) for a in node.args]
         if node.func.id == 'divmod' and len(args) == 2:
@@ -162,7 +174,7 @@ class Raised(Exception):
     pass
 
 
-def run_function(f, env, max_steps=10000):
+def run_function(f, env, max_steps=10000, skip_calls=False):
     """Interpret a *decision-table* function: if/elif chains of comparisons that assign or return
     constants / simple arithmetic.  Supports Assign, AugAssign, If, Return, Raise, Pass, Expr(docstring),
     While loops with integer arithmetic (bounded).  Returns the returned value; raises Raised on raise."""
@@ -204,6 +216,8 @@ def run_function(f, env, max_steps=10000):
             elif isinstance(s, ast.Pass):
                 pass
             elif isinstance(s, ast.Expr) and isinstance(s.value, ast.Constant):
+                pass
+            elif skip_calls and isinstance(s, ast.Expr) and isinstance(s.value, ast.Call):
                 pass
             else:
                 raise Unsupported('statement %s' % type(s).__name__)
